@@ -330,6 +330,7 @@ package floatingip
 
 // ---- ByKeyAndIPRanges: every reported entry is allocated under the key ----
 //@ pure infoOfKey(ci *crdIpam, info *FloatingIPInfo, key string) bool = info.FloatingIP.Key == key && ipstr(info.FloatingIP.IP) in ci.allocatedFIPs && ci.allocatedFIPs[ipstr(info.FloatingIP.IP)].Key == key && info.FloatingIP.PodUid == ci.allocatedFIPs[ipstr(info.FloatingIP.IP)].PodUid && info.FloatingIP.NodeName == ci.allocatedFIPs[ipstr(info.FloatingIP.IP)].NodeName && info.IPInfo.IP != nil && info.IPInfo.IP.IP == info.FloatingIP.IP && subnetsOfEntry(info, ci.allocatedFIPs[ipstr(info.FloatingIP.IP)])
+//@ pure infoNetOfPool(ci *crdIpam, info *FloatingIPInfo) bool = info.IPInfo.IP.Mask == ci.allocatedFIPs[ipstr(info.FloatingIP.IP)].pool.Mask && info.IPInfo.Vlan == ci.allocatedFIPs[ipstr(info.FloatingIP.IP)].pool.Vlan && info.IPInfo.Gateway == ci.allocatedFIPs[ipstr(info.FloatingIP.IP)].pool.Gateway
 //@ pure subnetsOfEntry(info *FloatingIPInfo, fip *FloatingIP) bool = info.NodeSubnets != nil && fip.pool.nodeSubnets != nil && dom(info.NodeSubnets) == dom(fip.pool.nodeSubnets)
 //@ pure ownedIn(ci *crdIpam, key string, rs []nets.IPRange) bool = exists k string :: k in ci.allocatedFIPs && ci.allocatedFIPs[k].Key == key && inRanges(rs, k)
 //@ func [C02,C08,C04,C06] (*crdIpam).ByKeyAndIPRanges
@@ -340,19 +341,20 @@ package floatingip
 //@   ensures [C02:bykey-all-nonnil-without-ranges] len(ipranges) == 0 ==> forall j int :: 0 <= j && j < len(result0) ==> result0[j] != nil
 //@   ensures [C02,C04:bykey-complete-without-ranges] len(ipranges) == 0 ==> forall k string :: k in ci.allocatedFIPs && ci.allocatedFIPs[k].Key == key ==> exists j int :: 0 <= j && j < len(result0) && result0[j] != nil && ipstr(result0[j].FloatingIP.IP) == k
 //@   ensures result0 == nil || fresh(result0)
+//@   ensures [C06,C13:bykey-net-of-pool] forall j int :: 0 <= j && j < len(result0) && result0[j] != nil ==> infoNetOfPool(ci, result0[j])
 //@   ensures [C06,C08:bykey-slot-in-its-range] len(ipranges) != 0 ==> forall j int :: 0 <= j && j < len(result0) && result0[j] != nil ==> inRanges(ipranges[j], ipstr(result0[j].FloatingIP.IP))
 //@   ensures [C06,C08:bykey-complete-with-ranges] forall j int {ipranges[j]} :: 0 <= j && j < len(ipranges) && ownedIn(ci, key, ipranges[j]) ==> result0[j] != nil
 //@   modifies fresh FloatingIPInfo.*, fresh nets.IPNet.*, fresh mapsof(map[string]sets.Empty), fresh elemsof(string), fresh elemsof(*FloatingIPInfo), fresh elemsof(byte)
 //@   loop 0,call:walkIPRanges#0/0,call:walkIPRanges#0/1 invariant sameElems(ipinfos) && ipinfos != nil && fresh(ipinfos) && len(ipinfos) == len(ipranges) && forall j int :: 0 <= j && j < len(ipinfos) ==> ipinfos[j] == nil || (fresh(ipinfos[j]) && infoOfKey(ci, ipinfos[j], key))
 //@   loop call:walkIPRanges#0/0,call:walkIPRanges#0/1 invariant 0 <= outer_idx && outer_idx < len(ipranges) && i == outer_idx && ranges == ipranges[outer_idx]
-//@   loop 0,call:walkIPRanges#0/0,call:walkIPRanges#0/1 invariant forall j int :: 0 <= j && j < len(ipinfos) && ipinfos[j] != nil ==> inRanges(ipranges[j], ipstr(ipinfos[j].FloatingIP.IP))
+//@   loop 0,call:walkIPRanges#0/0,call:walkIPRanges#0/1 invariant forall j int :: 0 <= j && j < len(ipinfos) && ipinfos[j] != nil ==> inRanges(ipranges[j], ipstr(ipinfos[j].FloatingIP.IP)) && infoNetOfPool(ci, ipinfos[j])
 //@   loop 0 invariant forall j int {ipranges[j]} :: 0 <= j && j < idx && ownedIn(ci, key, ipranges[j]) ==> ipinfos[j] != nil
 //@   loop call:walkIPRanges#0/0,call:walkIPRanges#0/1 invariant forall j int {ipranges[j]} :: 0 <= j && j < outer_idx && ownedIn(ci, key, ipranges[j]) ==> ipinfos[j] != nil
 //@   loop call:walkIPRanges#0/0,call:walkIPRanges#0/1 invariant forall k string, q int {k in ci.allocatedFIPs, ranges[q]} :: 0 <= q && q < idx && k in ci.allocatedFIPs && ci.allocatedFIPs[k].Key == key && k == ipv4str(ipv4val(k)) && nets.val(ranges[q].First) <= ipv4val(k) ==> ipv4val(k) > nets.val(ranges[q].Last)
 //@   loop call:walkIPRanges#0/1 invariant 0 <= idx && idx < len(ranges) && r == ranges[idx] && last == nets.val(r.Last) && nets.val(r.First) <= first
 //@   loop call:walkIPRanges#0/1 invariant forall k string {k in ci.allocatedFIPs} :: k in ci.allocatedFIPs && ci.allocatedFIPs[k].Key == key && k == ipv4str(ipv4val(k)) && nets.val(r.First) <= ipv4val(k) ==> ipv4val(k) >= first
 //@   loop 1 invariant forall k string :: visited[k] && k in ci.allocatedFIPs && ci.allocatedFIPs[k].Key == key ==> exists j int :: 0 <= j && j < len(ipinfos) && ipinfos[j] != nil && ipstr(ipinfos[j].FloatingIP.IP) == k
-//@   loop 1 invariant sameElems(ipinfos) && (ipinfos == nil || fresh(ipinfos)) && forall j int :: 0 <= j && j < len(ipinfos) ==> ipinfos[j] != nil && fresh(ipinfos[j]) && infoOfKey(ci, ipinfos[j], key)
+//@   loop 1 invariant sameElems(ipinfos) && (ipinfos == nil || fresh(ipinfos)) && forall j int :: 0 <= j && j < len(ipinfos) ==> ipinfos[j] != nil && fresh(ipinfos[j]) && infoOfKey(ci, ipinfos[j], key) && infoNetOfPool(ci, ipinfos[j])
 
 // ---- ReleaseIPs: releases exactly the (ip, key) pairs that match; stops at the first store failure ----
 //@ pure pairMatches(ipToKey map[string]string, k string) bool = k in ipToKey && old(StoreDom[k]) && old(StoreKey[k]) == ipToKey[k]
@@ -389,6 +391,7 @@ package floatingip
 //@   ensures [C02:bykey-all-nonnil-without-ranges] len(ipranges) == 0 ==> forall j int :: 0 <= j && j < len(result0) ==> result0[j] != nil
 //@   ensures [C02,C04:bykey-complete-without-ranges] len(ipranges) == 0 ==> forall k string :: k in ci.allocatedFIPs && ci.allocatedFIPs[k].Key == key ==> exists j int :: 0 <= j && j < len(result0) && result0[j] != nil && ipstr(result0[j].FloatingIP.IP) == k
 //@   ensures result0 == nil || fresh(result0)
+//@   ensures [C06,C13:bykey-net-of-pool] forall j int :: 0 <= j && j < len(result0) && result0[j] != nil ==> infoNetOfPool(ci, result0[j])
 //@   ensures [C06,C08:bykey-slot-in-its-range] len(ipranges) != 0 ==> forall j int :: 0 <= j && j < len(result0) && result0[j] != nil ==> inRanges(ipranges[j], ipstr(result0[j].FloatingIP.IP))
 //@   ensures [C06,C08:bykey-complete-with-ranges] forall j int {ipranges[j]} :: 0 <= j && j < len(ipranges) && ownedIn(ci, key, ipranges[j]) ==> result0[j] != nil
 //@   modifies fresh FloatingIPInfo.*, fresh nets.IPNet.*, fresh mapsof(map[string]sets.Empty), fresh elemsof(string), fresh elemsof(*FloatingIPInfo), fresh elemsof(byte)
